@@ -46,6 +46,7 @@ class Config:
         self.horizon = horizon
         self.ops_when = ops_when
         self.max_closing = max_closing
+        self.cost_of: Any = None
 
 
 class ScriptedListener(plumpy.ProcessListener):
@@ -135,6 +136,7 @@ class World:
         self.ops_issued = 0
         self.stuck = False
         self.ended = False
+        self.pre_pause_status: Any = None
 
     # ---- hooks used by generated programs -------------------------------------------------
     def attach(self, proc: Any) -> None:
@@ -175,6 +177,9 @@ class World:
             'ntrace': len(self.trace), 'nentered': len(self.entered),
         }
         self.calls.append(rec)
+        ncalls = len(self.calls)
+        if op == 'play' and proc.paused:
+            rec['status_expected'] = self.pre_pause_status
         try:
             if op == 'pause':
                 ret = proc.pause(*args)
@@ -195,11 +200,14 @@ class World:
         except Exception as exc:  # noqa: BLE001 - what the caller of the control method would see
             rec['raised'] = exc
             rec['state_after'] = proc.state
+            rec['nested'] = [c['op'] for c in self.calls[ncalls:]]
             return rec
+        rec['nested'] = [c['op'] for c in self.calls[ncalls:]]
         rec['obj'] = ret
         rec['ret'] = fut_status(ret)
         rec['state_after'] = proc.state
         rec['paused_after'] = proc.paused
+        rec['status_after'] = proc.status
         return rec
 
     # ---- driver ------------------------------------------------------------------------------
@@ -233,7 +241,8 @@ class World:
             for op in self.cfg.alphabet:
                 if op[0] == 'resume' and proc.state != ProcessState.WAITING:
                     continue
-                opts.append((op, self.cfg.op_cost, self._op_thunk(op)))
+                cost = self.cfg.cost_of(op) if self.cfg.cost_of is not None else self.cfg.op_cost
+                opts.append((op, cost, self._op_thunk(op)))
             if self.cfg.early_gates:
                 first_default = opts[0][0]
                 for g in self.pending_gates():
@@ -251,6 +260,11 @@ class World:
                 return (('gate', pending[0]), '', self._closing(self._gate_thunk(pending[0])))
         if 'play' in closing and proc.paused:
             return (('play',), '', self._closing(self._op_thunk(('play',), origin='closing')))
+        if 'resume_if_none' in closing and proc.state == ProcessState.WAITING and not any(
+                r['op'] == 'resume' and r['raised'] is None and r['state'] == ProcessState.WAITING
+                and r['nentered'] == len(self.entered) for r in self.calls):
+            op = ('resume',) + tuple(self.cfg.resume_default)
+            return (op, '', self._closing(self._op_thunk(op, origin='closing')))
         if 'resume' in closing and proc.state == ProcessState.WAITING:
             op = ('resume',) + tuple(self.cfg.resume_default)
             return (op, '', self._closing(self._op_thunk(op, origin='closing')))
